@@ -28,7 +28,7 @@ PROPS = ("C01",)
 
 
 @st.composite
-def cases(draw, op="read", invalid=False, many=False, size_bias=None, packing=False, fragfail=False, chunked=False):
+def cases(draw, op="read", invalid=False, many=False, size_bias=None, packing=False, fragfail=False, chunked=False, encap_refusal=False):
     """packing: many requests for small tags with long names (the request, not the reply, fills the packet);
     fragfail: few requests for large tags and one service - usually a fragment of a transfer under way - refused by the target"""
     if chunked:
@@ -59,6 +59,9 @@ def cases(draw, op="read", invalid=False, many=False, size_bias=None, packing=Fa
         if fragfail:
             status = draw(st.sampled_from([0x02, 0x04, 0x05, 0x10, 0x20, 0xFF]))
             forced.append({"when": {"nth": draw(st.integers(0, 9))}, "status": status, "ext": []})
+        elif encap_refusal:
+            # one connected frame of the call is answered with a header-only encapsulation error (mostly "invalid session handle")
+            forced.append({"when": {"unitdata_after_open": draw(st.integers(0, 6)), "packet": True}, "status": draw(st.sampled_from([0x64, 0x64, 0x64, 0x65, 0x03])), "ext": []})
         elif draw(st.integers(0, 5)) == 0:
             # the controller refuses the n-th tag service it receives (may be one fragment of a fragmented transfer)
             status = draw(st.sampled_from([0x02, 0x04, 0x05, 0x10, 0x20, 0xFF]))
